@@ -70,6 +70,9 @@ def _gen_program_once(rng, *, futures, hooks, max_pre):
 
     def new_value():
         value_ids[0] += 1
+        if rng.random() < 0.2:
+            # any object is a legal value: falsy ones, None, containers, an exception instance used as data
+            return rng.choice([None, 0, "", False, [], [value_ids[0], [1]], ["<exc>", "TimeoutError", f"t/o {value_ids[0]}"], ["<exc>", "KeyError", "k"]])
         return value_ids[0]
 
     def fexpr(depth=0):
